@@ -646,14 +646,15 @@ func doRun(o runOpts) int {
 	findings := loadFindings()
 	byClass := map[string][]Outcome{}
 	inconclusive := 0
+	inconcl := []string{}
 	for _, oc := range outcomes {
 		switch oc.Status {
 		case "violation", "crash":
 			byClass[oc.Class] = append(byClass[oc.Class], oc)
 		case "inconclusive":
 			inconclusive++
-			if len(infra) < 10 {
-				infra = append(infra, fmt.Sprintf("index %d inconclusive: %s", oc.Index, oc.Msg))
+			if len(inconcl) < 10 {
+				inconcl = append(inconcl, fmt.Sprintf("index %d inconclusive: %s", oc.Index, oc.Msg))
 			}
 		}
 	}
@@ -697,7 +698,16 @@ func doRun(o runOpts) int {
 	for _, l := range infra {
 		fmt.Fprintln(os.Stderr, "INFRA:", l)
 	}
-	writeEvidence(o, b, info, outcomes, knownHit, violations, inconclusive, skipped, len(nondet), infra, time.Since(start))
+	// A run that exhausts its own step or time budget decides nothing - it is neither a
+	// violation nor a failure of the machinery - and is reported as such; only when more than
+	// one run in a hundred ends that way is the whole check considered not to have worked.
+	for _, l := range inconcl {
+		fmt.Fprintln(os.Stderr, "INCONCLUSIVE:", l)
+	}
+	if inconclusive*100 > len(outcomes) {
+		infra = append(infra, fmt.Sprintf("%d of %d runs were inconclusive", inconclusive, len(outcomes)))
+	}
+	writeEvidence(o, b, info, outcomes, knownHit, violations, inconclusive, skipped, len(nondet), append(append([]string{}, infra...), inconcl...), time.Since(start))
 	fmt.Printf("vcheck %s tier=%s seed=%d: %d runs (%d enumerated) in %.1fs (build %.1fs reused=%v), violations=%d known=%d inconclusive=%d skipped=%d nondeterministic=%d\n",
 		o.prop, o.tier, o.seed, len(outcomes), minInt(info.Enum, len(outcomes)), time.Since(start).Seconds(), b.Seconds, b.Reused, violations, len(knownHit), inconclusive, skipped, len(nondet))
 	if exit == 1 {
